@@ -611,6 +611,9 @@ func (o *oracles) noteProbes(st stepRef) {
 		fmt.Fprintf(&sb, "%s:%d/%d;", t.Name, len(t.Matches), len(t.Uncertain))
 	}
 	sig := sim.Hash(sb.String())
+	if os.Getenv("VERIF_DEBUG_STATES") != "" {
+		sig = fmt.Sprintf("%s@%d(%s:%s)", sb.String(), o.s.stepNo, st.kind, st.label)
+	}
 	if !o.stateSigs[sig] {
 		o.stateSigs[sig] = true
 		res.States = append(res.States, sig)
